@@ -91,3 +91,37 @@ func Block(op string, ready func() bool) bool {
 	t.Yield(op, ready)
 	return true
 }
+
+// Recv is `<-ch` for a scheduled thread: a scheduling point at which the thread is enabled only once a value
+// (or the close) is there to be received - the other threads run meanwhile, and "every unfinished thread waits"
+// is a deadlock the scheduler reports. Outside a scheduler it is the plain receive.
+func Recv[T any](ch <-chan T) T {
+	v, _ := Recv2(ch)
+	return v
+}
+
+// Recv2 is `v, ok := <-ch`.
+func Recv2[T any](ch <-chan T) (v T, ok bool) {
+	t := active()
+	if t == nil {
+		v, ok = <-ch
+		return
+	}
+	Points.Add(1)
+	got := false
+	t.Yield("chan.recv", func() bool {
+		if got {
+			return true
+		}
+		select {
+		case v, ok = <-ch:
+			got = true
+		default:
+		}
+		return got
+	})
+	if !got {
+		v, ok = <-ch
+	}
+	return
+}
